@@ -1048,6 +1048,9 @@ pub fn sample(n: &Node, rng: &mut Rng, icase: bool, caps: &mut Vec<Option<Vec<u3
         }
         Node::Bref(k) => {
             if let Some(Some(t)) = caps.get(*k as usize) {
+                // under i the text a back-reference reads may be another case variant of the capture,
+                // possibly of a different encoded length (ſ/s, K/k)
+                let t: Vec<u32> = t.iter().map(|c| if icase && rng.chance(1, 2) { swap_case(*c, rng) } else { *c }).collect();
                 out.extend(t.iter());
             }
         }
